@@ -28,7 +28,8 @@ import (
 // ---- session description (what a replay file holds) ---------------------------------------------
 
 type Step struct {
-	Op      string `json:"op"`                // frame | ev | end | sync
+	Op      string `json:"op"`                // frame | ev | end | sync | flood | resume
+	Big     int    `json:"big,omitempty"`     // start(subscription): each event carries this many KiB of payload
 	F       string `json:"f,omitempty"`       // init-ok init-rej start startbad stop ping pong terminate unknown malformed close
 	ID      int    `json:"id,omitempty"`      // operation id index (0 = the empty id)
 	Kind    string `json:"kind,omitempty"`    // query mutation subscription subfail invalid
@@ -56,7 +57,7 @@ func (s Step) String() string {
 			return fmt.Sprintf("%s(%d)", s.F, s.ID)
 		}
 		return s.F
-	case "ev", "end":
+	case "ev", "end", "flood":
 		return fmt.Sprintf("%s(%d)", s.Op, s.Src)
 	}
 	return s.Op
@@ -147,6 +148,7 @@ type live struct {
 	closed  bool // the client's read loop ended
 	closedAt time.Time
 	wireTime time.Duration // from before the dial until the read loop ended
+	gate     sync.Mutex    // held by the player while the client does not read
 	code    int
 	slow    bool
 }
@@ -223,6 +225,26 @@ func newWorld() *world {
 				return &apifu.SubscriptionSourceStream{EventChannel: src.ch, Stop: src.stop}, nil
 			} else if ctx.Object != nil {
 				return ctx.Object, nil
+			}
+			return nil, fmt.Errorf("subscriptions are not supported using this protocol")
+		}})
+	pad := strings.Repeat("x", 1024)
+	cfg.AddSubscription("big", &graphql.FieldDefinition{Type: graphql.StringType,
+		Arguments: map[string]*graphql.InputValueDefinition{"tag": {Type: graphql.IntType}, "kb": {Type: graphql.IntType}},
+		Resolve: func(ctx graphql.FieldContext) (interface{}, error) {
+			if ctx.IsSubscribe {
+				t := intArg(ctx, "tag")
+				src := &source{gen: t, ch: make(chan int), stoppedCh: make(chan struct{})}
+				if l := w.cur.Load(); l != nil {
+					l.mu.Lock()
+					src.slow = l.slow
+					l.sources[t] = src
+					l.execs = append(l.execs, ExecRec{t, "subscription"})
+					l.mu.Unlock()
+				}
+				return &apifu.SubscriptionSourceStream{EventChannel: src.ch, Stop: src.stop}, nil
+			} else if n, ok := ctx.Object.(int); ok {
+				return fmt.Sprintf("%d:", n) + strings.Repeat(pad, intArg(ctx, "kb")), nil
 			}
 			return nil, fmt.Errorf("subscriptions are not supported using this protocol")
 		}})
@@ -304,7 +326,10 @@ func unknownSpellings(proto string) []string {
 
 var badPayloads = []string{`5`, `"x"`, `[1]`, `true`, `{"query":5}`, `{"variables":[]}`}
 
-func docFor(kind string, gen, variant int) string {
+func docFor(kind string, gen, variant, big int) string {
+	if kind == "subscription" && big > 0 {
+		return fmt.Sprintf("subscription{big(tag:%d,kb:%d)}", gen, big)
+	}
 	switch kind {
 	case "query":
 		return fmt.Sprintf("{q(tag:%d)}", gen)
@@ -343,7 +368,7 @@ func frameBytes(proto string, st Step, gen int) []byte {
 	case "init-rej":
 		return []byte(`{"type":"connection_init","payload":{"reject":true}}`)
 	case "start":
-		q, _ := json.Marshal(docFor(st.Kind, gen, st.Variant))
+		q, _ := json.Marshal(docFor(st.Kind, gen, st.Variant, st.Big))
 		return []byte(`{` + idPart + `"type":"` + startT + `","payload":{"query":` + string(q) + `}}`)
 	case "startbad":
 		return []byte(`{` + idPart + `"type":"` + startT + `","payload":` + badPayloads[st.Variant%len(badPayloads)] + `}`)
@@ -387,7 +412,11 @@ func parseServerFrame(p []byte) WFrame {
 	case "complete":
 		return WFrame{Type: "comp", ID: idIndex(m.ID)}
 	case "data", "next":
-		f := WFrame{Type: "res", ID: idIndex(m.ID), Gen: -1, Raw: string(m.Payload)}
+		raw := string(m.Payload)
+		if len(raw) > 160 {
+			raw = raw[:160] + "…"
+		}
+		f := WFrame{Type: "res", ID: idIndex(m.ID), Gen: -1, Raw: raw}
 		var r struct {
 			Data   map[string]json.RawMessage `json:"data"`
 			Errors []struct {
@@ -406,6 +435,12 @@ func parseServerFrame(p []byte) WFrame {
 			} else if v, ok := r.Data["s"]; ok && len(r.Errors) == 0 {
 				if n, err := strconv.Atoi(string(v)); err == nil {
 					f.Gen, f.Ev = n/1000, n%1000
+				}
+			} else if v, ok := r.Data["big"]; ok && len(r.Errors) == 0 && len(v) > 2 {
+				if i := strings.IndexByte(string(v), ':'); i > 1 {
+					if n, err := strconv.Atoi(string(v[1:i])); err == nil {
+						f.Gen, f.Ev = n/1000, n%1000
+					}
 				}
 			} else if len(r.Errors) > 0 {
 				if mm := digits.FindStringSubmatch(r.Errors[0].Message); mm != nil {
@@ -436,6 +471,9 @@ type player struct {
 	probeNo  int
 	dead     bool // a wait timed out already: do not wait at full length again in this session
 	finishing bool // the session is being ended: the full deadline applies to the cleanup waits
+	paused    bool      // the client is not reading (slow-reader fault)
+	pausedAt  time.Time //
+	lenient   bool      // a stall lasted so long that the server's 5 s write deadline may have fired: nothing after it is "due"
 	patient   bool // the current wait is for something that legitimately takes a moment
 	ending   string
 }
@@ -537,6 +575,9 @@ func (p *player) caughtUp(onlyID int) bool {
 }
 
 func (p *player) sync() {
+	if p.paused || p.lenient {
+		return
+	}
 	ok := p.waitFor("quiescence (all expected messages, resolver runs and Stop calls)", func() bool { return p.caughtUp(-1) })
 	_ = ok
 	// recorded even when it timed out: the comparison then reports what is missing
@@ -582,6 +623,77 @@ func (p *player) source(gen int) *source {
 	return p.l.sources[gen]
 }
 
+// flood is the slow-reader fault: the client stops reading and the source of subscription st.Src
+// (one with large events) is fed until the server side stalls — the kernel buffers are full, the
+// write loop is blocked in its write, the 100-slot buffer is full and the subscription goroutine is
+// blocked in SendData, so the source's channel send is not taken any more. Every push that *was*
+// taken is an input like any other. The server's write deadline is 5 s, so the whole stall is kept
+// well below that; if it is not (overloaded machine), nothing after it counts as due.
+func (p *player) flood(st Step) {
+	if p.sp.closing || p.paused {
+		return
+	}
+	if st.Src < 0 {
+		if k := len(p.sp.created) + st.Src; k >= 0 {
+			st.Src = p.sp.created[k]
+		}
+	}
+	g, ok := p.sp.gens[st.Src]
+	if !ok || !g.created || g.stopped || g.ended {
+		p.stats["src-skip:no-such-subscription"]++
+		return
+	}
+	var src *source
+	if !p.waitFor(fmt.Sprintf("the source of subscription %d to be created", st.Src), func() bool { src = p.source(st.Src); return src != nil }) {
+		return
+	}
+	p.l.gate.Lock()
+	p.paused, p.pausedAt = true, time.Now()
+	p.stats["flood"]++
+	taken, stalled := 0, false
+	for time.Since(p.pausedAt) < 2500*time.Millisecond && src.sent < 900 {
+		src.sent++
+		timer := time.NewTimer(300 * time.Millisecond)
+		select {
+		case src.ch <- st.Src*1000 + src.sent:
+			timer.Stop()
+			taken++
+			p.inputs = append(p.inputs, Input{Kind: "ev", Gen: st.Src, N: src.sent})
+			p.sp.event(st.Src, src.sent, len(p.inputs)-1)
+			continue
+		case <-src.stoppedCh:
+			timer.Stop()
+			src.sent--
+			p.anom = append(p.anom, fmt.Sprintf("source %d was stopped although nothing asked for it", st.Src))
+		case <-timer.C:
+			src.sent--
+			if taken <= 100 {
+				continue // fewer events than the send buffer holds were taken: a hiccup, not the stall
+			}
+			stalled = true
+		}
+		break
+	}
+	p.stats["flood-events"] += taken
+	if stalled {
+		p.stats["flood:stalled"]++
+	} else {
+		p.stats["flood:no-stall-within-bounds"]++
+	}
+}
+
+func (p *player) resume() {
+	if !p.paused {
+		return
+	}
+	p.paused = false
+	if time.Since(p.pausedAt) > 3500*time.Millisecond {
+		p.lenient = true
+		p.stats["stall-too-long:lenient"]++
+	}
+	p.l.gate.Unlock()
+}
+
 // probe sends a frame whose answer proves that the reader has handled everything sent before.
 func (p *player) probe() {
 	if !p.sp.inited || p.sp.closing {
@@ -602,7 +714,18 @@ func (p *player) probe() {
 
 func (p *player) play() {
 	for _, st := range p.sess.Steps {
+		if p.paused && (st.Op == "sync" || st.Op == "ev" || st.Op == "end" || st.Op == "flood") {
+			p.stats["step-skip:client-not-reading"]++
+			continue
+		}
 		switch st.Op {
+		case "flood":
+			p.flood(st)
+		case "resume":
+			p.resume()
+			if !p.sp.closing {
+				p.sync()
+			}
 		case "sync":
 			if !p.sp.closing {
 				p.sync()
@@ -616,6 +739,10 @@ func (p *player) play() {
 			}
 			if st.F == "start" {
 				// an id is re-used only after everything outstanding for it has been observed
+				if p.paused && !p.caughtUp(st.ID) {
+					p.stats["frame-skip:id-busy-while-not-reading"]++
+					continue
+				}
 				if p.sp.closing && !p.caughtUp(st.ID) {
 					// the server was told to close: what is outstanding may never come, and a new
 					// operation on the same id would race with it
@@ -734,8 +861,12 @@ func (p *player) finish(ending string, closeSent bool) {
 	p.finishing = true
 	p.stats["ending:"+ending]++
 	readerDone := func() bool { p.l.mu.Lock(); defer p.l.mu.Unlock(); return p.l.closed }
+	if p.paused {
+		p.stats["ending-while-stalled:"+ending]++
+	}
 	switch ending {
 	case "await", "cclose":
+		p.resume() // a client that has sent its close frame reads until the close arrives
 		if !p.waitFor("the server to close the connection", readerDone) {
 			p.anom = append(p.anom, "the server did not close the connection")
 		}
@@ -743,6 +874,7 @@ func (p *player) finish(ending string, closeSent bool) {
 		done := make(chan struct{})
 		go func() { p.w.api.CloseHijackedConnections(); close(done) }()
 		p.patient = true
+		p.resume()
 		if !p.waitFor("CloseHijackedConnections to return", func() bool {
 			select {
 			case <-done:
@@ -757,8 +889,10 @@ func (p *player) finish(ending string, closeSent bool) {
 		p.waitFor("the server to close the connection", readerDone)
 	case "drop":
 		p.conn.UnderlyingConn().Close()
+		p.resume()
 		p.waitFor("the client's read loop to end", readerDone)
 	}
+	p.resume()
 	p.conn.UnderlyingConn().Close()
 	p.waitFor("the client's read loop to end", readerDone)
 	p.ending = ending
@@ -830,6 +964,8 @@ func runSession(w *world, sess Session, deadline time.Duration) *Observed {
 	}
 	go func() {
 		for {
+			l.gate.Lock() // the player holds the gate while the client "does not read"
+			l.gate.Unlock()
 			_, b, err := conn.ReadMessage()
 			if err != nil {
 				l.mu.Lock()
